@@ -14,6 +14,7 @@ CONSTANTS
   Dev_RsrcRecursion = TRUE
   Dev_FirstDepth = TRUE
   Dev_KidsDepth = TRUE
+  FirstWalkIterative = FALSE
   StackFrames = 300
   OutlineDepthLimit = 256
   NameTreeDepthLimit = 256
